@@ -68,6 +68,7 @@ pub fn one_run(ctx: &Ctx, out: &mut Outcome, run_seed: u64) {
         liveness: true,
         flood,
         max_len: 400_000,
+        overload: false,
     };
     let mut mons: Vec<Box<dyn Monitor>> = vec![
         Box::new(UnorderedOracle::new("C02", true, true)),
